@@ -179,6 +179,7 @@ pub fn adjust(cfg: &mut SwarmCfg, tier: &str, r: &mut Prng) {
             setw(cfg, "obs_corrupt", 12);
             setw(cfg, "obs_snapshot", 4);
             setw(cfg, "obs_propose", 6);
+            setw(cfg, "obs_stale_ref", 6);
             setw(cfg, "commit", 14);
             setw(cfg, "propose", 8);
             setw(cfg, "send_app", 10);
@@ -260,6 +261,7 @@ pub fn adjust(cfg: &mut SwarmCfg, tier: &str, r: &mut Prng) {
             setw(cfg, "commit", 18);
             setw(cfg, "propose", 18);
             setw(cfg, "forge", 10);
+            setw(cfg, "update_clash", 3);
             setw(cfg, "deliver", 14);
             setw(cfg, "crash", 0);
         }
@@ -323,6 +325,9 @@ pub fn extra_kinds(w: &World, kinds: &mut Vec<(&'static str, u32)>) {
     if w.cfg.weight("byz") > 0 && w.live_members(g).len() >= 2 {
         kinds.push(("byz", w.cfg.weight("byz")));
     }
+    if w.cfg.weight("update_clash") > 0 && g == 0 && w.live_members(g).len() >= 3 {
+        kinds.push(("update_clash", w.cfg.weight("update_clash")));
+    }
     if w.cfg.weight("forge") > 0 && w.live_members(g).len() >= 2 {
         kinds.push(("forge", w.cfg.weight("forge")));
     }
@@ -342,6 +347,7 @@ pub fn extra_kinds(w: &World, kinds: &mut Vec<(&'static str, u32)>) {
             kinds.push(("obs_corrupt", w.cfg.weight("obs_corrupt")));
             kinds.push(("obs_snapshot", w.cfg.weight("obs_snapshot")));
             kinds.push(("obs_propose", w.cfg.weight("obs_propose")));
+            kinds.push(("obs_stale_ref", w.cfg.weight("obs_stale_ref")));
         }
     }
     if w.cfg.weight("bad_join") > 0 && !w.groups[g].log.is_empty() {
@@ -449,13 +455,23 @@ pub fn extra_action(w: &mut World, kind: &str) -> Option<Action> {
                 m,
             })
         }
+        "update_clash" => {
+            let live = w.live_members(g);
+            let p = *w.prng.pick(&live);
+            Some(Action::Special {
+                kind: "update_clash".into(),
+                a: p as u64,
+                b: w.prng.next_u64() >> 8,
+                c: 0,
+            })
+        }
         "forge" => {
             let live = w.live_members(g);
             let p = *w.prng.pick(&live);
             Some(Action::Special {
                 kind: "forge".into(),
                 a: p as u64,
-                b: w.prng.below(8),
+                b: if w.cfg.knob("templates").is_some() { w.prng.below(11) } else { w.prng.below(8) },
                 c: w.prng.below(8),
             })
         }
@@ -494,6 +510,12 @@ pub fn extra_action(w: &mut World, kind: &str) -> Option<Action> {
                 c: 0,
             })
         }
+        "obs_stale_ref" => Some(Action::Special {
+            kind: "obs_stale_ref".into(),
+            a: w.prng.usize_below(w.ext.observers.len().max(1)) as u64,
+            b: w.prng.below(64),
+            c: 0,
+        }),
         "obs_snapshot" => Some(Action::Special {
             kind: "obs_snapshot".into(),
             a: w.prng.usize_below(w.ext.observers.len().max(1)) as u64,
@@ -671,6 +693,19 @@ pub fn prop_spec_override(
 ) -> Option<PropSpec> {
     if w.cfg.knob("no-gce").is_some() && _opts.len() > 3 {
         _opts[3] = 0;
+    }
+    if w.cfg.knob("templates").is_some() {
+        // two changes to one leaf: a member that has already proposed an Update in this epoch proposes another one
+        let epoch = w.groups[_g].log.len() as u64;
+        let again = w.groups[_g].props.get(&epoch).map(|ps| {
+            ps.iter().any(|i| w.msgs[i].sender == _p && matches!(w.msgs[i].pspec, Some(PropSpec::Update { .. })))
+        });
+        if again == Some(true) && w.prng.chance(1, 2) {
+            return Some(PropSpec::Update { new_identity: false });
+        }
+        if w.prng.chance(1, 8) {
+            return Some(PropSpec::Update { new_identity: false });
+        }
     }
     if w.cfg.knob("templates").is_some() && w.prng.chance(1, 6) {
         let t = *w.prng.pick(&[8u8, 4]);
